@@ -888,12 +888,20 @@ def shrink_rows(db, pred):
     return db
 
 
-def root_causes(ir) -> list:
+def root_causes(ir, res=None) -> list:
     """Structural tags of a (minimised) IR naming the executor mechanisms a known defect lives in.
-    They only make the violation key recognisable; they never suppress anything by themselves."""
+    They only make the violation key recognisable; they never suppress anything by themselves.
+    `res` (the oracle's result record) gates the tags of order-only / column-only defects on the observed symptom,
+    so that e.g. a DISTINCT query returning *duplicates* is never keyed as the known "DISTINCT loses ORDER BY"."""
     from vf.props import c11_oracle as O
 
     tags = set()
+    same_cols = same_bag = None
+    if res is not None and isinstance(res.get("got"), dict) and isinstance(res.get("want"), dict) and "rows" in res["got"] and "rows" in res["want"]:
+        same_cols = res["got"].get("columns") == res["want"].get("columns")
+        same_bag = sorted(map(canon, res["got"]["rows"])) == sorted(map(canon, res["want"]["rows"]))
+    order_only = res is None or (same_cols and same_bag)
+    columns_only = res is None or (same_cols is False)
 
     def is_plain_col(e):
         return e is not None and e[0] == "col"
@@ -909,9 +917,9 @@ def root_causes(ir) -> list:
                     tags.add("rc:setop-arm-aggregate")
             return
         names = [p["as"] or (p["e"][2] if p["e"][0] == "col" else None) for p in q["proj"]]
-        if len(set(names)) != len(names):
+        if len(set(names)) != len(names) and columns_only:
             tags.add("rc:duplicate-output-names")
-        if q["distinct"] and q.get("order"):
+        if q["distinct"] and q.get("order") and order_only:
             tags.add("rc:distinct-order")
         if q["joins"]:
             operands = []
@@ -933,11 +941,26 @@ def root_causes(ir) -> list:
             for k in q.get("order") or []:
                 if k["e"][0] != "out":
                     O._walk_expr(k["e"], lambda e: order_cols.append(e) if e[0] == "col" else None, lambda _q: None)
-            if order_cols:
+            if order_cols and order_only:
                 tags.add("rc:order-by-column-over-join")
             if q["distinct"]:
                 tags.add("rc:distinct-over-join")
 
+        # a projection / ORDER BY key that mixes a bare group-key column with an aggregate (same planner mechanism as HAVING)
+        def mixes(e):
+            bare = []
+
+            def rec(x, inside_agg):
+                if x[0] == "col" and not inside_agg:
+                    bare.append(x)
+                for c in O._subexprs(x):
+                    rec(c, inside_agg or x[0] == "agg")
+
+            rec(e, False)
+            return bool(bare) and O._has_agg(e)
+
+        if any(mixes(p["e"]) for p in q["proj"]) or any(k["e"][0] != "out" and mixes(k["e"]) for k in (q.get("order") or [])):
+            tags.add("rc:projection-mixes-key-and-aggregate")
         # HAVING that mixes a bare group-key column with aggregates (planner turns the whole HAVING into one aggregation)
         if q["having"] is not None:
             bare = []
@@ -977,10 +1000,61 @@ def root_causes(ir) -> list:
     return sorted(tags)
 
 
-def violation_key(ir) -> str:
+def violation_key(ir, res=None) -> str:
     from vf.props import c11_oracle as O
 
-    return ",".join(root_causes(ir)) + "|" + O.skeleton(ir)
+    return ",".join(root_causes(ir, res)) + "|" + O.skeleton(ir)
+
+
+def gen_interaction(rng):
+    """Targeted family: DISTINCT / HAVING / ORDER BY / LIMIT over a GROUP BY whose projections are the keys or
+    NON-INJECTIVE expressions of the keys, on one table whose rows make different groups collide under those
+    expressions (NULL vs a COALESCE default, values a CASE threshold / product / sum does not separate)."""
+    from vf.props import c11_oracle as O
+
+    g = O._Gen(rng)
+    t = rng.choice(O.TABLES)
+    q = O._empty_select(t, t)
+    cols = rng.sample(["a", "b", "c"], rng.choice([1, 1, 2, 2, 3]))
+    keys = [["col", t, c] for c in cols]
+    q["group"] = keys
+    proj = []
+    shown = keys if rng.random() < 0.75 else rng.sample(keys, max(1, len(keys) - 1))
+    for kx in shown:
+        typ = O.COLTYPE[kx[2]]
+        if rng.random() < 0.7:
+            e = g.keyexpr([kx] if rng.random() < 0.7 else keys, typ if rng.random() < 0.8 else "int")
+        else:
+            e = kx
+        proj.append({"e": e, "as": None})
+    if rng.random() < 0.3:
+        proj.append({"e": g.agg([t], "int"), "as": None})
+    names = set()
+    for i, p in enumerate(proj):
+        if p["e"][0] != "col" or p["e"][2] in names:
+            p["as"] = "c%d" % i
+        names.add(p["as"] or p["e"][2])
+    q["proj"] = proj
+    q["distinct"] = rng.random() < 0.75
+    if rng.random() < 0.3:
+        q["having"] = ["cmp", rng.choice(O.CMP_OPS), g.keyexpr(keys, "int"), ["int", rng.choice([0, 1])]] if rng.random() < 0.6 \
+            else g.having([t], keys)
+    if rng.random() < 0.25:
+        q["where"] = g.pred([t], 1, None)
+    if rng.random() < 0.5:
+        g.order(q, False)
+    if not O._valid(q):
+        return None
+    ints, texts = [None, None, 0, 0, 1, 2, -1], [None, None, "", "a", "b"]
+    rows = []
+    for _ in range(rng.randint(2, 6)):
+        if rows and rng.random() < 0.25:
+            rows.append(rng.choice(rows))
+        else:
+            rows.append((rng.choice(ints), rng.choice(ints), rng.choice(texts)))
+    db = {x: [] for x in O.TABLES}
+    db[t] = rows
+    return db, q
 
 
 def search(chk: Check, hints: list, budget_s: float) -> None:
@@ -1016,8 +1090,15 @@ def search(chk: Check, hints: list, budget_s: float) -> None:
     # 2. corpus + random queries of the fragment
     tried = 0
     while time.time() - t0 < budget_s and len(chk.violations) < 3:
-        db = O.gen_db(rng)
-        ir = O.gen_query(rng)
+        fam = None
+        if rng.random() < 0.15:
+            fam = gen_interaction(rng)
+        if fam is not None:
+            db, ir = fam
+            chk.count("family:distinct-group-keyexpr")
+        else:
+            db = O.gen_db(rng)
+            ir = O.gen_query(rng)
         tried += 1
         res = O.run_case(db, ir, repeat=O._repeat_for(ir))
         st = res["status"]
@@ -1034,7 +1115,7 @@ def search(chk: Check, hints: list, budget_s: float) -> None:
             res2 = O.run_case(db2, ir2, repeat=4)
             if res2["status"] != "violation":  # nondeterministic defect that did not show again: keep the unshrunk case
                 db2, ir2, res2 = db, ir, res
-            chk.report_violation(violation_key(ir2), f"{res2['sql']} over {db2}: {res2.get('detail', '')} differ: execute() -> "
+            chk.report_violation(violation_key(ir2, res2), f"{res2['sql']} over {db2}: {res2.get('detail', '')} differ: execute() -> "
                                  f"{res2.get('got')}; engines -> {res2.get('want')}",
                                  {"kind": "ir", "db": db2, "ir": ir2, "sql": res2["sql"]})
     chk.search_info = {"ran": True, "budget_s": budget_s, "queries": tried, "hints": len(hints), "statuses": stats,
